@@ -40,26 +40,72 @@ fn policies(concurrent: bool, thorough: bool) -> Vec<(String, Policy)> {
 
 struct Case {
     id: String,
-    body: &'static str,
+    body: String,
     concurrent: bool,
 }
 
 fn cases() -> Vec<Case> {
-    let mut v: Vec<Case> = asynchost::AWAIT_ATOMS.iter().map(|(n, b)| Case { id: format!("await.{}", n), body: b, concurrent: false }).collect();
-    v.extend(asynchost::CONCURRENT_ATOMS.iter().map(|(n, b)| Case { id: format!("concurrent.{}", n), body: b, concurrent: true }));
+    let mut v: Vec<Case> = asynchost::AWAIT_ATOMS.iter().map(|(n, b)| Case { id: format!("await.{}", n), body: b.to_string(), concurrent: false }).collect();
+    v.extend(asynchost::CONCURRENT_ATOMS.iter().map(|(n, b)| Case { id: format!("concurrent.{}", n), body: b.to_string(), concurrent: true }));
+    v
+}
+
+// ───────────────────────────── composed programs with await points ─────────────────────────────
+
+const COMPOSED_SHARDS: u64 = 32;
+
+/// One composed corpus program (loops, switch, try / finally, destructuring, classes,
+/// generators, closures ...) as the body of `async function main`, with a subset of its
+/// numeric literals read from the host instead: variant 0 = every site, variant 1 = every
+/// third site, variant 2 = one site chosen by the index.
+fn composed_case(shard: u64, index: u64, variant: u64) -> Option<Case> {
+    let p = crate::compose::generate("corpus-b", shard, index);
+    let n = crate::compose::await_sites(&p.marked);
+    if n == 0 {
+        return None;
+    }
+    let body = crate::compose::render_await(&p.marked, |o| match variant {
+        0 => true,
+        1 => (o as u64 + index) % 3 == 0,
+        _ => o as u64 == (index * 7 + shard) % n as u64,
+    });
+    Some(Case {
+        id: format!("composed.{}/{}#{}", shard, index, variant),
+        body: format!("{}\nasync function main(){{\n{}}}", super::PRELUDE, body),
+        concurrent: false,
+    })
+}
+
+fn composed_per_shard(thorough: bool) -> u64 {
+    if thorough { 120 } else { 48 }
+}
+
+fn composed_cases(ctx: &Ctx) -> Vec<Case> {
+    let shards: Vec<u64> = if ctx.thorough() { (0..COMPOSED_SHARDS).collect() } else { vec![ctx.seed % COMPOSED_SHARDS] };
+    let mut v = Vec::new();
+    for sh in shards {
+        for i in 0..composed_per_shard(ctx.thorough()) {
+            for variant in 0..3 {
+                if let Some(c) = composed_case(sh, i, variant) {
+                    v.push(c);
+                }
+            }
+        }
+    }
     v
 }
 
 const PER_UNIT: usize = 6;
+const COMPOSED_PER_UNIT: usize = 36;
 
 fn judge(r: &mut UnitResult, cs: &[Case], thorough: bool) {
     let lim = Limits { wall: std::time::Duration::from_secs(300), address_space: 3 << 30, stack: 0 };
     let exit = isolate::run(&lim, || {
         for (ci, c) in cs.iter().enumerate() {
-            let reference = asynchost::run(&asynchost::program(c.body, false), &Policy::default());
+            let reference = asynchost::run(&asynchost::program(&c.body, false), &Policy::default());
             isolate::emit(&format!("{}\u{2}ref\u{2}{}\u{2}{}\u{2}0\u{3}", ci, reference.outcome, reference.stale_events.join(",")));
             for (pn, p) in policies(c.concurrent, thorough) {
-                let run = asynchost::run(&asynchost::program(c.body, true), &p);
+                let run = asynchost::run(&asynchost::program(&c.body, true), &p);
                 isolate::emit(&format!("{}\u{2}{}\u{2}{}\u{2}{}\u{2}{}\u{3}", ci, pn, run.outcome, run.stale_events.join(","), run.suspensions));
             }
         }
@@ -106,18 +152,30 @@ fn judge(r: &mut UnitResult, cs: &[Case], thorough: bool) {
 }
 
 impl Check for C07 {
-    fn units(&self, _ctx: &Ctx) -> usize {
-        cases().len().div_ceil(PER_UNIT)
+    fn units(&self, ctx: &Ctx) -> usize {
+        cases().len().div_ceil(PER_UNIT) + composed_cases(ctx).len().div_ceil(COMPOSED_PER_UNIT)
     }
 
     fn run_unit(&self, ctx: &Ctx, idx: usize) -> UnitResult {
         let mut r = UnitResult::default();
         let all = cases();
+        let na = all.len().div_ceil(PER_UNIT);
+        if idx >= na {
+            let comp = composed_cases(ctx);
+            let lo = (idx - na) * COMPOSED_PER_UNIT;
+            let hi = (lo + COMPOSED_PER_UNIT).min(comp.len());
+            judge(&mut r, &comp[lo..hi], false);
+            r.stat("composed_programs_with_await_points", (hi - lo) as i64);
+            if let Some(c) = comp.get(lo) {
+                r.sample(json!({"program": c.id, "source": truncate(c.body.split("async function main").nth(1).unwrap_or(""), 900)}));
+            }
+            return r;
+        }
         let lo = idx * PER_UNIT;
         let hi = (lo + PER_UNIT).min(all.len());
         judge(&mut r, &all[lo..hi], ctx.thorough());
         if let Some(c) = all.get(lo) {
-            r.sample(json!({"program": c.id, "source": asynchost::program(c.body, true), "policies": policies(c.concurrent, false).iter().map(|p| p.0.clone()).collect::<Vec<_>>()}));
+            r.sample(json!({"program": c.id, "source": asynchost::program(&c.body, true), "policies": policies(c.concurrent, false).iter().map(|p| p.0.clone()).collect::<Vec<_>>()}));
         }
         r
     }
@@ -125,7 +183,14 @@ impl Check for C07 {
     fn replay(&self, _ctx: &Ctx, case: &Value) -> UnitResult {
         let mut r = UnitResult::default();
         let id = case["id"].as_str().unwrap_or("");
-        let cs: Vec<Case> = cases().into_iter().filter(|c| c.id == id).collect();
+        let cs: Vec<Case> = if let Some(rest) = id.strip_prefix("composed.") {
+            // composed.<shard>/<index>#<variant>
+            let (sh, rest) = rest.split_once('/').unwrap_or(("0", "0#0"));
+            let (ix, var) = rest.split_once('#').unwrap_or(("0", "0"));
+            composed_case(sh.parse().unwrap_or(0), ix.parse().unwrap_or(0), var.parse().unwrap_or(0)).into_iter().collect()
+        } else {
+            cases().into_iter().filter(|c| c.id == id).collect()
+        };
         judge(&mut r, &cs, true);
         r
     }
